@@ -819,10 +819,36 @@ Qed.
 Lemma response_eqb_shape_nf : forall a, response_eqb a RNotFound = true -> a = RNotFound.
 Proof. intros a H. apply response_eqb_nf. exact H. Qed.
 
+(* engine.bindRoutes as Handle calls = what the plain route list prescribes, call by call *)
+Lemma bind_calls_spec : forall nf na regs pre,
+  bind_calls (router_of nf na pre) regs = spec_calls (table_of pre) regs.
+Proof.
+  intros nf na. induction regs as [|g regs IH]; intro pre; [reflexivity|].
+  destruct g as [m p h]. cbn [bind_calls spec_calls rmethod rpath].
+  destruct (L_registration_rejects nf na pre m p h) as [R [_ [F T]]]. cbn zeta in R, F, T.
+  unfold handle_reg. cbn [rmethod rpath rhandler].
+  destruct (handle (router_of nf na pre) m p h) as [r' e] eqn:H. cbn [fst snd] in R, F.
+  rewrite <- R. destruct e; try reflexivity.
+  rewrite F, <- T. f_equal. apply IH.
+Qed.
+
+Lemma L_bind_calls_are_spec : forall nf na regs,
+  bind_calls (new_router nf na) regs = spec_calls [] regs.
+Proof. intros. apply (bind_calls_spec nf na regs []). Qed.
+
 Lemma L_agrees_implies_prop_ok_server : forall s, s_agrees s = true -> s_prop_ok s = true.
 Proof.
-  intros s A. unfold s_agrees in A. rewrite !andb_true_iff in A. destruct A as [[[[ST _] _] _] REQ].
-  unfold s_prop_ok. apply andb_true_iff. split.
+  intros s A. unfold s_agrees in A. rewrite !andb_true_iff in A. destruct A as [[[[[ST _] _] _] REQ] BND].
+  unfold s_prop_ok. rewrite !andb_true_iff. split; [split|].
+  3: { (* the Handle calls Start made *)
+    revert BND. apply forallb2_impl. intros i o BA. unfold bound_ok, bound_agrees in *.
+    destruct o as [calls|]; [|reflexivity].
+    destruct (negb (server_in_scope s i)); [reflexivity|].
+    destruct (has_start i (sevents s)); [|exact BA].
+    unfold bound_regs in BA. rewrite L_routes_are_spec in BA. fold (user_regs s i) in BA.
+    rewrite L_bind_calls_are_spec in BA. revert BA. apply forallb2_impl.
+    intros x y C. unfold call_agrees, call_ok in *. apply andb_true_iff in C. destruct C as [C1 C2].
+    rewrite C1. cbn. unfold same_verdict. destruct (snd x), (snd y); cbn in C2; try discriminate; reflexivity. }
   - (* how every Start ended *)
     revert ST. apply forallb2_impl. intros i o SA. unfold start_ok.
     destruct (negb (server_in_scope s i)); [reflexivity|].
